@@ -537,7 +537,7 @@ func runC17(c *core.Ctx) {
 	}
 
 	// ---- HEXBytes / ISO8601Time / structs / envelopes
-	n := c.N(40000, 1500000)
+	n := c.N(40000, 12000000)
 	for i := int64(0); i < n; i++ {
 		if !c.Mine("values", i) {
 			continue
